@@ -261,12 +261,12 @@ PROPS["C04"] = {
     "module": "GstProofs.Props.C04",
     "theorems": [
         "GstProofs.C04.wide_moving_all", "GstProofs.C04.loo_weights", "GstProofs.C04.loo_estimate",
-        "GstProofs.C04.blockAverage_single", "GstProofs.C01.dual", "GstProofs.C06.knn_spec",
+        "GstProofs.C04.blockAverage_single", "GstProofs.C04.uk_from_sk", "GstProofs.C01.dual", "GstProofs.C06.knn_spec",
     ],
     "harnesses": ["vh_c04"],
     "level": "proof",
     "technique": "Lean 4 theorems giving, for each pair of code paths, the reason why the answers coincide in the model (a moving neighbourhood where no limit binds selects every candidate; leave-one-out weights and estimate from one column of the inverse of the complete system, any size; dual = primal; one-point block average = point value; k-NN specification) + differential correspondence: both paths of the real library run on the same generated input and compared by the Lean driver (2^-20 of the scale), ties of nearest samples decided in exact integer arithmetic and skipped",
-    "level_text": "Partial proof: the algebraic identities behind unique=moving, cross-validation=leave-one-out, dual=primal and block(1 point)=point are theorems for all sizes; optimised covariance matrices, the ball tree, the algebraic calculator (KrigingCalcul) and the equality of the two paths of the library are tied by the differential run only. Collocated cokriging and the Bayesian form of the calculator are not exercised yet.",
+    "level_text": "Partial proof: the algebraic identities behind unique=moving, cross-validation=leave-one-out, dual=primal and block(1 point)=point are theorems for all sizes; the universal-kriging weights of the algebraic calculator (simple kriging corrected through the Schur complement) solve the bordered system (theorem uk_from_sk); optimised covariance matrices, the ball tree and the equality of the two paths of the library are tied by the differential run only. Collocated cokriging and the Bayesian form of the calculator are not exercised yet.",
     "level_note": "Trusted: Lean kernel + 3 standard axioms; for block kriging only the estimates are compared: the block variance term C(v,v) is evaluated by design between the regular discretisation and a randomly shifted copy (never C(0)), so the standard deviation differs from point kriging even with one discretisation point.",
     "rule": "random configurations (1-3D, 1-2 variables, known mean / order 0-1 drift, 6-14 samples, 3 off-lattice targets): covariance matrix optimised vs plain vs pairwise; unique vs wide moving neighbourhood; xvalid vs explicit leave-one-out (order <= 0); migrate ball tree vs exhaustive; moving neighbourhood ball tree vs standard (nmaxi nearest, no sector), then again with the same neighbourhood and data-base objects after the data locations have been exchanged in place; block(1 point) vs point; KrigingCalcul primal and dual vs kriging. distinct = distinct request line",
     "trivial": lambda line: False,
